@@ -233,6 +233,45 @@ def run_wrappers(res, layouts, rng, tier):
 
 
 
+def run_narrow_dtypes(res, rng):
+    """addition / subtraction with a number on either side and negation on narrow and unsigned integer storage holding the extreme values of
+    the dtype: the interpreter widens the multivector operand before it subtracts, so must the compiled overload (`s - mv` computed as `s + (-mv)`
+    negates in the storage dtype first and wraps). Products are left out: there the interpreter itself stays in the narrow dtype and wraps
+    (DESIGN §7, observed and not claimed)."""
+    import numpy as np
+    import numba
+    from clifford import MultiVector
+    from harness import real
+    L = real.make_layout([1, 1, -1])
+    ops = {'sub_s': lambda a, s: a - s, 'rsub_s': lambda a, s: s - a, 'radd_s': lambda a, s: s + a, 'neg': lambda a, s: -a}
+    vals = {'int8': [1, 2, 0, 5, 0, -128, 7, 127], 'uint8': [1, 2, 0, 5, 0, 255, 7, 1], 'int32': [1, 2, 0, 5, 0, -2 ** 31, 7, 2 ** 31 - 1]}
+    for dt, v in vals.items():
+        A = MultiVector(L, np.array(v, dtype=dt))
+        for name, f in ops.items():
+            jf = numba.njit(f)
+            for sc in ((3, 2.5) if name != 'neg' else (3,)):
+                site = dict(layout='Cl(2,1)', sig=[1, 1, -1], op='narrow:' + name, dtype=dt)
+                res.case(('narrow', name, dt, sc), nontrivial=True, sample=dict(site, scalar=sc))
+                res.count('narrow_' + name)
+                try:
+                    rp = f(A, sc)
+                except Exception as e:
+                    rp = e
+                try:
+                    rj = jf(A, sc)
+                except Exception as e:
+                    rj = e
+                inp = dict(site, M=v, scalar=sc)
+                if isinstance(rp, Exception) or isinstance(rj, Exception):
+                    if not (isinstance(rp, Exception) and isinstance(rj, Exception)):
+                        res.violate(f'jitted `{name}` and the interpreter disagree on {dt} storage: one raises', inp, repr(rj)[:200], repr(rp)[:200], dict(site, kind='raise'))
+                    continue
+                ok, why = same_result(rj, rp, exact=True)
+                if not ok:
+                    res.violate(f'jitted `{name}` differs from the interpreter on {dt} storage holding the extreme values of the dtype ({why})', inp,
+                                str(rj.value.tolist()), str(rp.value.tolist()), dict(site, kind=why))
+
+
 def run_orders_and_views(res, rng):
     """(a) grade selection and the grade-dependent methods in jitted code on layouts whose blade order does NOT keep a grade's blades
     next to each other (bitmap order: grades 0,1,1,2,1,2,2,3); (b) a history on ONE multivector object: passed to jitted code with
@@ -506,6 +545,8 @@ def run_job(job, tier, seed):
             run_twin_layouts(res, rng)
         with common.guard(res, 'blade orders / re-pointed coefficient arrays', {}):
             run_orders_and_views(res, rng)
+        with common.guard(res, 'narrow / unsigned integer storage', {}):
+            run_narrow_dtypes(res, rng)
     elif job == 'configs':
         run_configs(res, seed)
     else:
